@@ -105,7 +105,12 @@ impl Emitter {
     // Emit a sequence of code points, lowering to literal bytes (UTF-8).
     #[cfg(not(feature = "utf16"))]
     fn emit_code_point_sequence(&mut self, cps: &[u32], icase: bool) {
-        let pieces = lower_code_point_sequence(cps, icase, self.result.flags.unicode);
+        let mut pieces = lower_code_point_sequence(cps, icase, self.result.flags.unicode);
+        // Inside a lookbehind the input is traversed right to left, so the pieces (not the
+        // bytes within a piece) must be matched last to first.
+        if self.in_lookbehind {
+            pieces.reverse();
+        }
         for piece in pieces {
             self.emit_node(&Node::from(piece));
         }
@@ -115,7 +120,13 @@ impl Emitter {
     #[cfg(feature = "utf16")]
     fn emit_code_point_sequence(&mut self, cps: &[u32], icase: bool) {
         let unicode = self.result.flags.unicode;
-        for &cp in cps {
+        // Inside a lookbehind the input is traversed right to left.
+        let ordered: Vec<u32> = if self.in_lookbehind {
+            cps.iter().rev().copied().collect()
+        } else {
+            cps.to_vec()
+        };
+        for cp in ordered {
             let chars = unicode::expand_code_point(cp, icase, unicode);
             let node = match chars.len() {
                 0 => panic!("Char should always unfold to at least itself"),
